@@ -2300,6 +2300,11 @@ func (h *fsmHandler) loop(ctx context.Context, wg *sync.WaitGroup) {
 	if fsm.conn != nil {
 		fsm.conn.Close()
 	}
+	// an outgoing connection that completed its OPEN exchange but was not
+	// taken over yet (the FSM was in IDLE) has no other owner: close it
+	if fsm.outgoingConnMgr != nil {
+		fsm.outgoingConnMgr.stop()
+	}
 	close(fsm.connCh)
 	cleanInfiniteChannel(fsm.outgoingCh)
 }
